@@ -131,19 +131,21 @@ package samlsp
 //@ go func middlewareConfigured(m *Middleware) bool {
 //@    return m.OnError != nil && m.RequestTracker != nil && m.Session != nil && m.AssertionHandler != nil }
 
+//@ go func trackedID(t RequestTracker, r *http.Request, id string) bool {
+//@    return exists(0, len(TrackedOf(t, r)), func(j int) bool { return TrackedOf(t, r)[j].SAMLRequestID == id }) }
 //@ contract (*Middleware).ServeACS
 //@ requires[cfg] m: middlewareConfigured(m)
 //@ requires[cfg] r: r != nil && r.URL != nil
 //@ requires[cfg] sp: m.ServiceProvider.IDPMetadata != nil
-//@ loop 1 vars possibleRequestIDs []string, trackedRequests []TrackedRequest
+//@ loop 1 vars possibleRequestIDs []string
 //@ invariant[C04,C17] only_tracked: forall(0, len(possibleRequestIDs), func(k int) bool {
-//@    return (possibleRequestIDs[k] == "" && m.ServiceProvider.AllowIDPInitiated) ||
-//@      exists(0, len(trackedRequests), func(j int) bool { return trackedRequests[j].SAMLRequestID == possibleRequestIDs[k] }) })
-//@ -- the outstanding IDs handed to the SP are exactly: "" when IdP-initiated login is allowed, plus IDs from the tracker
-//@ assert@call[C04,C17] ParseResponse #1 (sp *saml.ServiceProvider, rq *http.Request, ids []string) uses trackedRequests []TrackedRequest ids_from_tracker:
-//@    forall(0, len(ids), func(k int) bool {
-//@      return (ids[k] == "" && m.ServiceProvider.AllowIDPInitiated) ||
-//@        exists(0, len(trackedRequests), func(j int) bool { return trackedRequests[j].SAMLRequestID == ids[k] }) })
+//@    return (possibleRequestIDs[k] == "" && m.ServiceProvider.AllowIDPInitiated) || trackedID(m.RequestTracker, r, possibleRequestIDs[k]) })
+//@ -- the outstanding IDs handed to the SP are exactly: "" when IdP-initiated login is allowed, plus IDs the configured
+//@ -- tracker lists for this request (TrackedOf: what RequestTracker.GetTrackedRequests returned for it) - stated over the
+//@ -- argument of the call, not over the locals it happens to be assembled in
+//@ assert@call[C04,C17] ParseResponse #1 (sp *saml.ServiceProvider, rq *http.Request, ids []string) ids_from_tracker:
+//@    rq == r && forall(0, len(ids), func(k int) bool {
+//@      return (ids[k] == "" && m.ServiceProvider.AllowIDPInitiated) || trackedID(m.RequestTracker, r, ids[k]) })
 
 //@ contract (*Middleware).CreateSessionFromAssertion
 //@ requires[cfg] m: middlewareConfigured(m)
